@@ -179,6 +179,7 @@ def run(ck):
     # offset-linked / command-table formats and declared-length liars (MED synth tables with jumps, DBM, IT compressed)
     syn += synthmods.write_set_extra(random.Random(ck.seed * 7561 + 5), syn_dir, 90 if quick else 900, gens=c02_gens.GENS, prefix="syx")
     syn += c02_gens.patched_corpus_meds(random.Random(ck.seed * 7561 + 9), sorted(vlib.corpus_files()), syn_dir, 6 if quick else 60)
+    syn += c02_gens.chunk_liars_from_corpus(random.Random(ck.seed * 7561 + 13), sorted(vlib.corpus_files()), syn_dir, 24 if quick else 300)
     files = files + syn * max(1, len(files) // (2 * max(1, len(syn))))
     ck.note("synthetic_modules", len(syn))
     bombs = make_bombs(os.path.join(scratch, "gen"), quick)
@@ -192,6 +193,14 @@ def run(ck):
     liar_files = liars.write_set(random.Random(ck.seed * 31337 + 11), liar_dir, 64 if quick else 400)
     ck.note("declared_size_liar_archives", len(liar_files))
     shards += [(exe, ck.seed * 2003 + 951 + i, 0, 90 if quick else 5000, scratch, liar_files) for i in range(2)]
+    # container headers cut short inside every optional field (by path: the depackers run)
+    cut_dir = os.path.join(scratch, "cuts-%d" % ck.seed)
+    shutil.rmtree(cut_dir, ignore_errors=True)
+    os.makedirs(cut_dir, exist_ok=True)
+    cut_files = c02_gens.header_cuts(random.Random(ck.seed * 911 + 7), cut_dir, [f for f in sorted(vlib.corpus_files()) if is_packed(f)],
+                                     64 if quick else 640)
+    ck.note("header_cut_archives", len(cut_files))
+    shards += [(exe, ck.seed * 2003 + 977 + i, 0, 80 if quick else 2000, scratch, cut_files) for i in range(2)]
     worst = {"cpu": None, "peak": None, "big": None, "plain_peak": None, "plain_big": None, "plain_cpu": None}
     n = 0
     for (rows, fails), sh in zip(vlib.pmap(run_res_shard, shards), shards):
